@@ -44,6 +44,9 @@ func genAuthority(r *hk.Rand) authority {
 	case k < 5:
 		a.Kind = "name"
 		n := r.Range(1, 4)
+		if r.Chance(8) {
+			n = r.Range(5, 7) // deep names: "domain" = everything after the first label
+		}
 		var ls []string
 		for i := 0; i < n; i++ {
 			ls = append(ls, hk.Pick(r, c11Labels))
